@@ -12,7 +12,7 @@
 (* reached; for the others the frontier states print why the next event    *)
 (* is refused (the attribution of DESIGN.md appendix B).                   *)
 (***************************************************************************)
-EXTENDS OrchestraProps, Json, IOUtils, TLCExt
+EXTENDS OrchestraProps, OrchestraSymptoms, Json, IOUtils, TLCExt
 
 Traces == JsonDeserialize(IOEnv.TRACE_FILE)
 
@@ -193,6 +193,17 @@ TSpec == TInit /\ [][TNext]_tvars
 (* acceptance and diagnosis, printed while exploring                       *)
 Accepted == l = NEv + 1
 
+(* what the run of n claims about itself: from the verdict event e and the  *)
+(* diagnosis that follows it                                               *)
+Claim(e, n) ==
+  LET nxt == IF l + 1 <= NEv /\ Evs[l + 1].k = "diag" /\ Evs[l + 1].n = n THEN Evs[l + 1].v ELSE "unknown" IN
+  IF e.k = "run-end" /\ e.v = "true" THEN "-claims-success"
+  ELSE IF e.k = "run-exc" /\ e.i = 0 - n THEN "-claims-timeout"
+  ELSE IF nxt = "timeout" THEN "-claims-timeout"
+  ELSE IF nxt = "critical" THEN "-claims-critical"
+  ELSE IF nxt = "fine" THEN "-claims-fine-but-failed"
+  ELSE "-claims-failure"
+
 (* why is event e refused in state X?  first failing clause, as a code     *)
 Why(C, X, e) ==
   LET n == e.n
@@ -249,15 +260,15 @@ Why(C, X, e) ==
        [] e.k = "sshut-cancel" -> "sshut-cancel-unexpected"
        [] e.k = "run-end" ->
             (IF ~Over(X, n) THEN "run-end-early"
-             ELSE IF X.st[n] = "exc" THEN "verdict-returned-instead-of-raise"
-             ELSE IF X.res[n] # <<e.v, 0>> THEN "verdict-value"
+             ELSE IF X.st[n] = "exc" THEN "verdict-returned-instead-of-raise" \o Claim(e, n) \o "-spec-" \o X.cause[n]
+             ELSE IF X.res[n] # <<e.v, 0>> THEN "verdict-value" \o Claim(e, n) \o "-spec-" \o X.cause[n]
              ELSE "run-end-other")
        [] e.k = "run-exc" ->
             (IF e.v = "other" THEN "verdict-foreign-exception"
              ELSE IF ~Over(X, n) /\ e.v = "cancelled" THEN "cancelled-run-ends-early"
              ELSE IF ~Over(X, n) THEN "run-exc-early"
-             ELSE IF X.st[n] = "ok" THEN "verdict-raise-instead-of-return"
-             ELSE IF X.st[n] = "exc" /\ X.res[n] # <<"exc", e.i>> THEN "verdict-exception-identity"
+             ELSE IF X.st[n] = "ok" THEN "verdict-raise-instead-of-return" \o Claim(e, n) \o "-spec-" \o X.cause[n]
+             ELSE IF X.st[n] = "exc" /\ X.res[n] # <<"exc", e.i>> THEN "verdict-exception-identity" \o Claim(e, n) \o "-spec-" \o X.cause[n]
              ELSE "run-exc-other")
        [] e.k = "diag" -> "diagnosis"
        [] e.k = "shut" ->
@@ -286,6 +297,7 @@ Report ==
 (* frontier report for the diagnosis pass: every state prints its position; *)
 (* the driver keeps the states with the greatest l                          *)
 Frontier ==
-  IF Has THEN PrintT(<<"AT", tid, l, Ev.k, Ev.n, Why(cfg, S, Ev)>>) ELSE PrintT(<<"ACC", tid>>)
+  /\ IF Has THEN PrintT(<<"AT", tid, l, Ev.k, Ev.n, Why(cfg, S, Ev)>>) ELSE PrintT(<<"ACC", tid>>)
+  /\ (l = 1 /\ marks = {}) => PrintT(<<"SYM", tid, Symptoms(cfg, Evs)>>)
 
 =============================================================================
